@@ -297,6 +297,9 @@ func (g *CondGen) lookup(o *Operand) (AV, bool) {
 func (g *CondGen) valNear(p *Operand, wantT string) *Operand {
 	cur, ok := g.lookup(p)
 	if ok && g.r.Chance(45) && (wantT == "" || cur.T == wantT) {
+		if g.r.Chance(35) {
+			return &Operand{Kind: "val", Val: twinOf(g.r, cur)} // equal by value, written differently
+		}
 		return &Operand{Kind: "val", Val: cur}
 	}
 	t := wantT
@@ -313,6 +316,25 @@ func (g *CondGen) valNear(p *Operand, wantT string) *Operand {
 var cmpOps = []string{"=", "<>", "<", "<=", ">", ">="}
 
 func (g *CondGen) atom() *Cond {
+	if g.r.Chance(8) {
+		// structural equality: a set, list or map against the same value written differently (set elements and
+		// map entries in another order, numerals respelt), or against a neighbour
+		p := g.pathTo(pick(g.r, []string{"SS", "NS", "BS", "L", "M", "N"}))
+		var rhs *Operand
+		if cur, ok := g.lookup(p); ok && g.r.Chance(75) {
+			rhs = &Operand{Kind: "val", Val: twinOf(g.r, cur)}
+		} else {
+			rhs = g.valNear(p, "")
+		}
+		switch g.r.Intn(4) {
+		case 0:
+			return &Cond{K: "in", L: p, Ins: []Operand{*g.valNear(p, ""), *rhs}}
+		case 1:
+			return &Cond{K: "cmp", Op: "<>", L: p, R: rhs}
+		default:
+			return &Cond{K: "cmp", Op: "=", L: p, R: rhs}
+		}
+	}
 	switch g.r.Intn(10) {
 	case 0, 1, 2, 3:
 		p := g.pathTo(pick(g.r, []string{"", "S", "N", "B", "S", "N"}))
@@ -379,8 +401,14 @@ func (g *CondGen) atom() *Cond {
 		case ok && (cur.T == "SS" || cur.T == "NS" || cur.T == "BS") && len(cur.Set) > 0 && g.r.Chance(60):
 			et := map[string]string{"SS": "S", "NS": "N", "BS": "B"}[cur.T]
 			arg = &Operand{Kind: "val", Val: AV{T: et, V: pick(g.r, cur.Set)}}
+			if g.r.Chance(35) {
+				arg.Val = twinOf(g.r, arg.Val)
+			}
 		case ok && cur.T == "L" && len(cur.L) > 0 && g.r.Chance(60):
 			arg = &Operand{Kind: "val", Val: pick(g.r, cur.L)}
+			if g.r.Chance(35) {
+				arg.Val = twinOf(g.r, arg.Val)
+			}
 		case ok && cur.T == "S" && len(cur.V) > 1 && g.r.Chance(60):
 			arg = &Operand{Kind: "val", Val: AV{T: "S", V: cur.V[1:]}}
 		default:
